@@ -8,7 +8,8 @@ LEVEL_TEXT = ("Proved over the real-arithmetic model: the three efficiency formu
               "literal 0 for every scalar type, hence never NaN/inf), the lifting from the pointwise inequality 0 <= jsi <= "
               "min(singles_s, singles_i) to rates (non-negative, C <= min(Rs, Ri)) and to all three efficiencies in [0,1] "
               "(C^2 <= Rs Ri), the definition of the rates as correction x rectangle sum and the cancellation of the common "
-              "correction factor. The pointwise inequality is a HYPOTHESIS of these theorems, validated by search only "
+              "correction factor; and, exactly, that for a collinear signal without pump walk-off the numerator of the singles "
+              "integrand is the pure phase exp(i L dk (z1-z2)/2) (skeleton of the no-diffraction clause, T4 partial). The pointwise inequality is a HYPOTHESIS of these theorems, validated by search only "
               "(Simpson-200 and Gauss-Legendre-40 on the real code); it is violated on the pinned tree for strongly focused "
               "collection modes (known finding D9).")
 LEVEL_NOTE = ("Layered correspondence: K singles_gl / singles_simpson take as inputs the quantities phasematch_singles_fiber_coupling "
@@ -34,7 +35,7 @@ RESIDUAL = ("the pointwise inequality jsi <= min(singles) between the two indepe
             "search only; violated in the D9 region); the no-diffraction limit ratio (search only, 1e-4); quadrature error of the "
             "real integrators; floating-point rounding")
 ASSUMPTIONS = ["the grid passed to the three counts_* functions is the same (as in spdc::efficiencies)"]
-CHECKER_MODULES = ["Spdc.Real.Counts"]
+CHECKER_MODULES = ["Spdc.Real.Counts", "Spdc.Real.Singles"]
 
 
 def families(tier, seed):
